@@ -842,7 +842,27 @@ def run(ctx, rep):
     _tcp_socket_model(ctx, rep)
 
 
+def _tcp_no_unbounded_io(ctx, rep):
+    """the TCP registry serves its clients one after the other on the main loop's thread: every operation on a client's socket
+    keeps its time-out, so a client that stops reading (or writing) costs at most that time-out"""
+    cls = ctx.cls("rpyc.utils.registry.TCPRegistryServer")
+    tm = [c for m in cls.methods.values() for c in A.calls(m.node) if isinstance(c.func, ast.Attribute) and c.func.attr == "settimeout"]
+    rep.floor("R18.9", "settimeout() calls in TCPRegistryServer", len(tm), 2)
+    bad = []
+    for m in cls.methods.values():
+        for c in A.calls(m.node):
+            if isinstance(c.func, ast.Attribute) and ((c.func.attr == "settimeout" and c.args and isinstance(c.args[0], ast.Constant)
+                                                       and c.args[0].value is None) or
+                                                      (c.func.attr == "setblocking" and c.args and ctx.try_fold(c.args[0]) in (True, 1))):
+                bad.append((m, c))
+    rep.ob("R18.9", "TCPRegistryServer: no client socket is switched to unbounded blocking I/O", not bad,
+           "%d settimeout() calls, all with the server's TIMEOUT" % len(tm) if not bad else
+           "%s does `%s`: a client that never reads (or never sends) blocks the registry's only thread forever - nobody else is "
+           "answered" % (bad[0][0].qual, A.src(bad[0][1])), ctx.loc(bad[0][1]) if bad else None, kind="site")
+
+
 def _tcp_socket_model(ctx, rep):
+    _tcp_no_unbounded_io(ctx, rep)
     """R18.9: TCPRegistryServer._recv / _send evaluated (sa/miniinterp.py) on model sockets, per behaviour of the accepted
     client: a whole request, a silent client (time-out), a client that closes in the middle of a request (recv() returns b''
     from then on), a client whose earlier request got no reply. _recv must come back (value or exception) after a bounded
